@@ -193,6 +193,30 @@ Theorem C09_udp_datagram_length : forall (seal : list N -> list N -> list N -> l
 Proof. exact udp_datagram_length. Qed.
 Print Assumptions C09_udp_datagram_length.
 
+(* ---- UDP: the key of a server->client datagram is the key of the most recent authentic client datagram of that session
+        (Session.input stores the block of every segment), so a peer that derives its key from its current time, as the
+        document says, can read the reply with one of the three salts around its clock (|d| <= 120 s between sending
+        and reading); a session that kept its FIRST key would not be readable from 240 s on ---- *)
+From M Require Import model.KeyTime proofs.KeyTimeProofs proofs.WireKeyTimeProofs.
+
+Theorem C09_udp_reply_key_follows_peer : forall (st : option Z) (ts : list Z) (t d : Z),
+  (Z.abs d <= 120 * NS)%Z ->
+  sess_run Z st (map (epoch KeyRefreshInterval_ns) (ts ++ [t])) = Some (epoch KeyRefreshInterval_ns t) /\
+  In (epoch KeyRefreshInterval_ns t) (slots KeyRefreshInterval_ns (t + d)%Z).
+Proof. exact udp_reply_key_follows_peer. Qed.
+Print Assumptions C09_udp_reply_key_follows_peer.
+
+Theorem C09_udp_reply_key_any_history : forall (K : Type) (st : option K) (ks : list K) (k : K),
+  sess_run K st (ks ++ [k]) = Some k /\ sess_run K st [] = st.
+Proof. exact (fun K st ks k => conj (sess_run_last st ks k) (sess_run_nil st)). Qed.
+Print Assumptions C09_udp_reply_key_any_history.
+
+Theorem C09_udp_first_key_goes_stale : forall t0 t : Z,
+  era t0 -> era t -> (240 * NS <= Z.abs (t - t0))%Z ->
+  ~ In (epoch KeyRefreshInterval_ns t0) (slots KeyRefreshInterval_ns t).
+Proof. exact udp_first_key_goes_stale. Qed.
+Print Assumptions C09_udp_first_key_goes_stale.
+
 (* ---- the SOURCE of the protocol type predicates as it is now (gen/Translated.v: translated from
    pkg/protocol/metadata.go by harness/cmd/go2coq on every run, semantics of base/MiniGo.v; protocolType is a uint8
    carried as Z) equals the predicates of model/Wire.v, for every protocol number ---- *)
